@@ -26,7 +26,7 @@ FLOORS = {"quick": {"stmt_checks": 20000, "pair_checks": 100000, "inplace_stmts"
 
 def gen_case(rng, cfg, idx):
     import os
-    b, base, n_inplace = gen_history(rng, nstmts=cfg["nstmts"], setshape_w=float(os.environ.get("MGV_SETSHAPE_W", "0.6")), const_kw_prob=0.12, bad_w=0.5)
+    b, base, n_inplace = gen_history(rng, nstmts=cfg["nstmts"], setshape_w=float(os.environ.get("MGV_SETSHAPE_W", "0.6")), const_kw_prob=0.12, bad_w=0.5, guard_off_prob=0.08)
     return {"prog": b.prog, "base": base}
 
 
